@@ -272,7 +272,7 @@ def run_main_slice(prog, rate_some, rate):
 
 def native_drift(rate):
     """start the REAL release binary with --max-drift-rate <rate>, read the drift it publishes (or its exit status)"""
-    tdir = os.path.join(common.BUILD, 'mir-dbin')
+    tdir = common.mir_target_dir('dbin')
     binp = os.path.join(tdir, 'release', 'clockbound')
     if not os.path.exists(binp):
         return {'error': 'release binary missing'}
